@@ -489,3 +489,89 @@ func FI() []Invalid {
 		{Name: "InitP", Request: "*T0", Provs: []Prov{fn("NewT0", []string{"*T1"}, []string{"*T0"}, false), fn("NewT1", []string{"*T1"}, []string{"*T1"}, false)}}}})
 	return out
 }
+
+// F6 is the layered family (the shape of real applications): one base
+// provider L0, k providers L1 each requiring L0, two providers L2 each
+// requiring an ordered pair of distinct L1 providers, and a root requiring both
+// L2 providers and every L1 provider no L2 uses. Every Async subset of L1 and
+// L2; stride samples.
+func F6(k int, stride int) []*Program {
+	var out []*Program
+	type pair struct{ a, b int }
+	var pairs []pair
+	for a := 0; a < k; a++ {
+		for b := 0; b < k; b++ {
+			if a != b {
+				pairs = append(pairs, pair{a, b})
+			}
+		}
+	}
+	cnt := 0
+	for _, px := range pairs {
+		for _, py := range pairs {
+			for mask := 0; mask < 1<<uint(k+2); mask++ {
+				cnt++
+				if stride > 1 && cnt%stride != 0 {
+					continue
+				}
+				// types: R, X, Y, L1_0..L1_{k-1}, B
+				types := []string{"R", "X", "Y", "B"}
+				for i := 0; i < k; i++ {
+					types = append(types, fmt.Sprintf("M%d", i))
+				}
+				d := Decl{Name: "InitP", Request: "*R"}
+				used := map[int]bool{px.a: true, px.b: true, py.a: true, py.b: true}
+				d.Provs = append(d.Provs, fn("NewB", nil, []string{"*B"}, false))
+				for i := 0; i < k; i++ {
+					p := fn(fmt.Sprintf("NewM%d", i), []string{"*B"}, []string{fmt.Sprintf("*M%d", i)}, false)
+					p.Async = mask&(1<<uint(i)) != 0
+					d.Provs = append(d.Provs, p)
+				}
+				x := fn("NewX", []string{fmt.Sprintf("*M%d", px.a), fmt.Sprintf("*M%d", px.b)}, []string{"*X"}, false)
+				x.Async = mask&(1<<uint(k)) != 0
+				y := fn("NewY", []string{fmt.Sprintf("*M%d", py.a), fmt.Sprintf("*M%d", py.b)}, []string{"*Y"}, false)
+				y.Async = mask&(1<<uint(k+1)) != 0
+				rp := []string{"*X", "*Y"}
+				for i := 0; i < k; i++ {
+					if !used[i] {
+						rp = append(rp, fmt.Sprintf("*M%d", i))
+					}
+				}
+				d.Provs = append(d.Provs, x, y, fn("NewR", rp, []string{"*R"}, false))
+				out = append(out, &Program{Family: "F6", Types: types, Decls: []Decl{d},
+					Desc: fmt.Sprintf("layered k=%d X(M%d,M%d) Y(M%d,M%d) async=%0*b", k, px.a, px.b, py.a, py.b, k+2, mask)})
+			}
+		}
+	}
+	return out
+}
+
+// FD is the determinism family (C11 gates): inputs whose output depends on
+// decisions that could be order- or history-sensitive.
+func FD() []*Program {
+	var out []*Program
+	// two imported packages with the same name, both needed in the output
+	out = append(out, &Program{Family: "FD", Desc: "same-named imports text/template and html/template", Types: []string{"R"},
+		ExtraImports: []string{`htemplate "html/template"`, `"text/template"`},
+		Decls: []Decl{{Name: "InitP", Request: "*R", Provs: []Prov{
+			fn("NewR", []string{"*template.Template", "*htemplate.Template"}, []string{"*R"}, false),
+		}}}})
+	out = append(out, &Program{Family: "FD", Desc: "same-named imports, async", Types: []string{"R", "Q"},
+		ExtraImports: []string{`htemplate "html/template"`, `"text/template"`},
+		Decls: []Decl{{Name: "InitP", Request: "*R", Provs: []Prov{
+			func() Prov { p := fn("NewQ", []string{"*htemplate.Template"}, []string{"*Q"}, true); p.Async = true; return p }(),
+			fn("NewR", []string{"*template.Template", "*Q"}, []string{"*R"}, false),
+		}}}})
+	// injector names colliding with variable base names (history dependence)
+	out = append(out, &Program{Family: "FD", Desc: "injector named like a variable", Types: []string{"App", "Db"},
+		Decls: []Decl{named("app", "App", "App:Db", "Db:"), named("InitDb", "Db", "Db:")}})
+	out = append(out, &Program{Family: "FD", Desc: "two files, second needs first's injector name", Types: []string{"App", "Server", "Db"}, Files: [][]int{{0}, {1}},
+		Decls: []Decl{named("server", "Server", "Server:Db", "Db:"), named("InitApp", "App", "App:Db,Server", "Db:", "Server:Db")}})
+	for _, p := range F2(false) {
+		if strings.Contains(p.Desc, "async=11") || strings.Contains(p.Desc, "two ") {
+			out = append(out, p)
+		}
+	}
+	out = append(out, F6(2, 7)...)
+	return out
+}
